@@ -93,6 +93,11 @@ def examine(case):
         z = call(athlib.athlon_performance_needed, g, e, 0)
         if z != r:
             out.append(V('negative-as-zero', ['negative', _kind(e)], case, r, z))
+    # the same whole target in another numeric carrier (800.0 is the target 800): the same answer
+    rf = call(athlib.athlon_performance_needed, g, e, float(s))
+    if rf[0] != 'ret' or rf[1] != p:
+        out.append(V('minimal' if rf[0] == 'ret' else 'needed-returns', ['target-carrier', 'float', _kind(e)],
+                     dict(case, carrier='float'), rf[:3], p))
     return out
 
 
